@@ -17,6 +17,15 @@ func init() {
 	// message that needs no escaping; the output is byte-identical to encoding/json's.
 	reg("encoding/json.Marshal", func(m *Machine, fn *ssa.Function, args []Value) Value {
 		i := args[0].(Iface)
+		if b, ok := i.T.(*types.Basic); ok && b.Kind() == types.String {
+			// json.Marshal(string): the harness's transcription of encoding/json's appendString
+			// (escapeHTML on) runs on the possibly symbolic bytes; natively the real one runs
+			f := m.Prog.Func("vfJSONQuote")
+			if f == nil {
+				m.unsupported("vfJSONQuote not defined by the harness")
+			}
+			return Tuple{m.callFn(f, []Value{i.V}, nil), Iface{}}
+		}
 		if i.T == nil || i.T.String() != "*larking.io/larking.twirpError" {
 			m.unsupported("json.Marshal of " + m.show(i))
 		}
